@@ -56,6 +56,27 @@ def run(tier, seed, replay=None):
         if opts["style_edition"] not in RELEASED:
             continue
         jobs.append({"id": len(jobs), "src": text, "opts": opts, "want": [], "_pid": pid})
+    # which style edition is in force is itself frozen: the configuration resolved the way a
+    # front end does it (public load_config) from a configuration file and the three options
+    # that choose the defaults (style_edition > version > edition), every combination
+    res_src = [("gen/resolve_0", "use crate::item::{item, x10, x2, Item};\nfn  f( ) {}\n")] + \
+        [x for x in universe.boundary_sources()
+         if x[0] in ("gen/arm_0", "gen/uselong_0", "gen/deriveattr_0")]
+    opt3 = lambda vs: [None] + list(vs)
+    for (name, text) in res_src:
+        for fv in opt3(("One", "Two")):
+            for fe in opt3(("2018", "2024")):
+                for fs in opt3(("2015", "2024")):
+                    toml = "".join(f'{k} = "{x}"\n' for k, x in
+                                   (("version", fv), ("edition", fe), ("style_edition", fs)) if x)
+                    for cv in opt3(("One", "Two")):
+                        for ce in opt3(("2015", "2024")):
+                            for cs in opt3(("2021", "2024")):
+                                cli = {k: x for k, x in (("version", cv), ("edition", ce),
+                                                         ("style_edition", cs)) if x}
+                                pid = (f"{name}@resolve:file={fv},{fe},{fs}:cli={cv},{ce},{cs}")
+                                jobs.append({"id": len(jobs), "src": text, "opts": {}, "toml": toml,
+                                             "cli": cli, "want": [], "_pid": pid})
     # the three frozen-together editions on the same source
     ed_jobs = []
     for k, (pid, name, text, opts) in enumerate(pts):
